@@ -122,7 +122,7 @@ fn leaf_name(r1: usize, c1: usize, r2: usize, c2: usize) -> String {
 pub fn run(run: &Run) {
     run.rule("every shape pair (r1,c1,r2,c2) × {+,-,*,/} × Matrix∘Matrix / Matrix∘Vector / Vector∘Matrix × 4 ownership forms; left entries distinct primes, right entries distinct other primes + 0.5; oracle = NumPy rule, bitwise; non-trivial = shapes differ (stretch or rejection expected)");
     let d = run.tier.pick(6usize, 10usize);
-    run.bound("shape pairs", format!("(r1,c1,r2,c2) in 1..={}^4{}", d, if run.thorough() { " plus {1,7,8,9,16,17,40}^4" } else { "" }));
+    run.bound("shape pairs", format!("(r1,c1,r2,c2) in 1..={}^4{}", d, if run.thorough() { " plus {1,2,7,8,9,15,16,17,31,33,40}^4" } else { " plus {1,2,8,9,16,17,40}^4" }));
     let mut pairs = Vec::new();
     for r1 in 1..=d {
         for c1 in 1..=d {
@@ -133,7 +133,7 @@ pub fn run(run: &Run) {
             }
         }
     }
-    let big: &[usize] = if run.thorough() { &[1, 7, 8, 9, 16, 17, 40] } else { &[1, 8, 9, 17] };
+    let big: &[usize] = if run.thorough() { &[1, 2, 7, 8, 9, 15, 16, 17, 31, 33, 40] } else { &[1, 2, 8, 9, 16, 17, 40] };
     for &r1 in big {
         for &c1 in big {
             for &r2 in big {
